@@ -12,11 +12,13 @@ def run(fb, rep, tier, cfg):
         "Compiler::compile_primitive selects the Instruction whose arm in ExecuteContext::execute_ applies the checked Rust "
         "operation on the type the name denotes (i64/u8 checked_{add,sub,mul,div} with None -> Error::Message, f64 IEEE ops, "
         "Lt/Eq on the named operand type), and `&&`/`||` compile their right operand behind a conditional jump. Everything else "
-        "in C01 (closures, patterns, records, implicits) is not decided. E13b (shared with C08; parser/src/infix.rs is an anchor of C01): the "
+        "in C01 (closures, patterns, records, implicits) is not decided. R11c: the two sibling branches that close a pre-allocated member of a "
+        "recursive value group both address stack_start + the member's position. E13b (shared with C08; parser/src/infix.rs is an anchor of C01): the "
         "built-in fixity table used for `#Type op`, `&&` and `||` agrees with std's #[infix] declarations of the same operators and "
         "orders || below && below the comparisons, so unparenthesised source denotes the documented tree.")
     rep.assumptions += ["the lowering of `match str` to sequential `str == literal` tests is read from MIR",
                         "Char values are represented as Int in the VM (Char comparisons map to the Int instructions)"]
     e11.r11a(fb, rep)
+    e11.r11c(fb, rep)
     from . import c08
     c08.e13b(fb, rep)
